@@ -212,6 +212,18 @@ let tree_mark (tree:string) (a:port list) (ap:z list -> pmeta option) (sa:value 
 let decl_mark (a:port list) (ap:z list -> pmeta option) : string =
   if declared_b a ap then "" else "UNDECLARED "
 
+(* the side conditions of the round-trip / permutation theorems, evaluated for this case
+   (Save/CondModel.v; sound by C12_wf_app_computed, C12_full_conditions_computed, C13_ranked_computed):
+   wf = wf_app a, full = full_conditions a st (the state the file is saved from), rk = the edges the
+   scan_deps model produces for the saved file are acyclic.  Informational field (the harness prints
+   cond=-): the plug-in counts them into the evidence's input distribution. *)
+let cond_text (a:port list) (ap:z list -> pmeta option) (st:value list) : string =
+  let b x = if x then "1" else "0" in
+  let ls = save_lines a st in
+  let ms = List.map (fun l -> (l.l_path, l)) ls in
+  let rk = (match pushes ap fuel ms with Some ps -> ranked_b ps | None -> false) in
+  Printf.sprintf "wf%s,full%s,rk%s" (b (wf_app_b a)) (b (full_conditions_b a st)) (b rk)
+
 let run_ops (a:port list) (mops:string) (st:value list) : value list =
   if mops = "-" then st else
     List.fold_left (fun st o ->
@@ -276,8 +288,8 @@ let () = each_line (fun line ->
       (match load_file ap fuel a (chars_of_string "app") f st0 with
        | None -> print_endline "NOFUEL"
        | Some (r, sb) ->
-         Printf.printf "%s%shdr=1 lines=%s ret=%s A=%s B=%s fresh=%s body=%s cls=%s\n" (decl_mark a ap) (tree_mark tree a ap sa) (show_lines ls) (z_to_string r)
-           (dump a sa) (dump a sb) (show_lines (save_lines a st0)) (body_text ls) (cls_text ls))
+         Printf.printf "%s%shdr=1 lines=%s ret=%s A=%s B=%s fresh=%s body=%s cls=%s cond=%s\n" (decl_mark a ap) (tree_mark tree a ap sa) (show_lines ls) (z_to_string r)
+           (dump a sa) (dump a sb) (show_lines (save_lines a st0)) (body_text ls) (cls_text ls) (cond_text a ap sa))
     | "perm" :: tree :: flat :: _ :: groups :: _ :: mops :: _ ->
       let a = parse_app flat in
       let ap = parse_apro_tree tree in
@@ -302,7 +314,7 @@ let () = each_line (fun line ->
                   Printf.sprintf "%s@%s@%s" (z_to_string r) (if names = [] then "-" else String.concat ">" names) shown
                 | _, _ -> "NOFUEL"
               end) (split_on '/' g))) (split_on ';' groups) in
-      Printf.printf "%sn=%d %s\n" (decl_mark a ap) n (String.concat ";" gs)
+      Printf.printf "%sn=%d %s cond=%s\n" (decl_mark a ap) n (String.concat ";" gs) (cond_text a ap sa)
     | "macro" :: _ :: name :: meta :: _ -> Printf.printf "name=%s meta=%s\n" name meta
     | "rej" :: tree :: flat :: _ :: appname :: _ :: absf :: _ ->
       let a = parse_app flat in
